@@ -28,10 +28,15 @@ res = {}
 try:
     for p in props:
         t0 = time.time()
+        # the evidence file describes the unchanged tree: it is put back after the run against the seeded change
+        ev = os.path.join(V, "evidence", p + ".json")
+        saved = open(ev, "rb").read() if os.path.exists(ev) else None
         r = subprocess.run([os.path.join(V, "check"), p, tier], cwd=V, capture_output=True, text=True,
                            env=dict(os.environ, VERIF_MAX_FAILURES=os.environ.get("VERIF_MAX_FAILURES", "60")))
         viol = [l for l in r.stdout.splitlines() if l.startswith("VIOLATION")]
         res[p] = dict(exit=r.returncode, violation_lines=viol[:3], wall_s=round(time.time() - t0, 1), tier=tier)
+        if saved is not None:
+            open(ev, "wb").write(saved)
         print(p, "exit", r.returncode, viol[:1])
         if r.returncode == 2:
             print(r.stdout[-1500:])
